@@ -240,6 +240,19 @@ def generate(rng, tier):
             add("%s to %s" % (TODAY["en"][a][0], TODAY["en"][b][0]), "en", "today-zone-diff", pre=pre,
                 expect={"t": "diff", "a": ("today", a), "b": ("today", b)})
 
+    # the date spellings are installed by set_date_rule: after re-installing month-first spellings (with and without
+    # custom rules registered before) ONLY the new spellings read dates
+    scale = {"op": "add_rule", "lang": "en", "patterns": ["{NUMBER:x} widgets"], "name": "w", "kind": "scale",
+             "k": str(bits(2.0)), "cur": ""}
+    mdy = {"op": "set_date_rule", "lang": "en", "patterns": ["{NUMBER:month}/{NUMBER:day}/{NUMBER:year}",
+                                                             "{MONTH:month} {NUMBER:day} {NUMBER:year}"]}
+    for pre in ([mdy], [scale, mdy], [scale, scale, mdy, mdy], [mdy, scale]):
+        for (mm, dd, yy) in ((2, 1, 2020), (12, 31, 1999), (7, 4, 2021)):
+            add("%d/%d/%d" % (mm, dd, yy), "en", "set-date-rule", pre=pre, expect={"t": "date", "days": daynum(yy, mm, dd)}, dflt=False)
+        add("13/1/2020", "en", "set-date-rule-impossible", pre=pre, expect={"t": "notdate"}, ymd=[2020, 13, 1])
+        add("31/12/1999", "en", "set-date-rule-impossible", pre=pre, expect={"t": "notdate"}, ymd=[1999, 31, 12])
+        add("march 5, 2021", "en", "set-date-rule", pre=pre, expect={"t": "date", "days": daynum(2021, 3, 5)}, dflt=False)
+
     while len(cases) < n:
         lang = "en" if rng.random() < 0.6 else "tr"
         k = rng.random()
